@@ -434,6 +434,11 @@ class Check:
                     if len(report["samples"]) < 5 and (k is not None) and report["evaluations"] % 97 in (1, 2, 3):
                         report["samples"].append({"case": self.show(c), "impl_obs": _jsonable(self.canon(o))})
                     io_c = rest[0] if (self.impl_canon_from_driver and rest) else self.canon(o)
+                    # optional 5th item of the driver's answer: 1 iff the case satisfies the hypotheses of the
+                    # property's theorems (Cxx_covered_cases); the rest is judged by the run-time checks only
+                    if len(rest) >= 2 and rest[1] in (0, 1):
+                        key = "cases_within_theorem_hypotheses" if rest[1] == 1 else "cases_outside_theorem_hypotheses"
+                        report["extra"][key] = report["extra"].get(key, 0) + 1
                     if io_c != m:
                         report["disagreements"] += 1
                         if disagree_first is None:
